@@ -288,3 +288,27 @@ reg("C34", "exploration", "E1",
     "file kind): copy => independent copy inside the job directory and the original stays intact when the copy is written; link "
     "modes => a link showing the original content; container shape and non-file members unchanged; a repeated object is staged once.",
     "Single tmpfs mount (no mount-dependent downgrade exercised); which kind of link is used is coverage only.")
+
+reg("C29", "exploration", "E1+E6",
+    "exhaustive enumeration of generated tasks x submitter/worker configurations, round-tripped through cloudpickle into fresh interpreters",
+    "1803 shell (definition, value) tasks of the C22 generator, 241 workflow programs (C03 n<=2, named shapes, failing variants) and "
+    "python tasks, wrapped in Jobs with debug / cf(n_procs=2) / slurm(-N1) submitters with hooks, PROV audit, readonly caches, "
+    "max_concurrent etc. set: cp.dumps(job) is loaded in fresh interpreters (different PYTHONHASHSEED): checksum equal, attrs/__dict__ "
+    "fields of job, submitter, worker, task equal, job.run() gives the same outputs / argv / executed bodies / hook calls, the result "
+    "file written by the child read back with load_result equals the child's result (errored stays errored), Result objects round-trip.",
+    "Workflows under slurm are checked for identity and fields only; the exception class of a failing workflow is worker-dependent and not compared.")
+reg("C32", "exploration", "E1",
+    "exhaustive enumeration of generated task classes through structure(unstructure(cls)) (and JSON where serialisable)",
+    "480 one-field shell classes (C22 generator + untyped), templates of <=2 (3) tokens over an 18-token pool, the requires/xor grammar "
+    "in python and shell flavour, python one-field/output variants and hand-written metadata classes: the re-created class must have the "
+    "same input/output field names and field classes, per field equal type, default and every metadata attribute, the same xor, and for "
+    "accepted/refused value assignments the same acceptance, executed argv (recorder seam) and outputs.",
+    "Metadata compared structurally (cloudpickle re-installs copies of attributes of dynamically created classes).")
+reg("C39", "fault_enumeration", "E5b",
+    "exhaustive enumeration of simulated lmod answers x caller environments, each a real execution printing the child's environment",
+    "A simulated $MODULESHOME/libexec/lmod prints each enumerated answer (0-3 os.environ[...] lines over {NEW, PATH, existing} x values "
+    "{plain, ':'-prepend, blanks, escaped quote, other quote} x quote styles, Lmod's real dressing, two modules, the failure answer) for "
+    "all 8 caller environments over {KEEP, PATH, OVERRIDE}; the task prints its environment as JSON: argv must equal the native argv, "
+    "the child environment must equal the caller's updated in line order with what the answer assigns when executed as Python, untouched "
+    "variables unchanged, and the failure answer must give an error instead of a run.",
+    "The meaning of an answer is what executing it as Python assigns; variables CPython adds itself are ignored.")
